@@ -48,6 +48,28 @@ fn body(ctx: &Ctx) -> (Summary, Meta) {
             jobs.push(SplineJob { axis: a.clone(), spec, den: 8, f32_too: false, xscale: 1.0, nearly_closed: false, lane_mix: true });
         }
     }
+    // very long axes (600 / 1000 knots; f32: 100 / 200 knots) with one or two deviating intervals, and
+    // nearly even axes (spacing 1/2 with jitter of 2^-32): solver shortcuts keyed on length or on
+    // "the spacing looks even"
+    for (n, f32_too) in [(100usize, true), (200, true), (600, false), (1000, false)] {
+        for dev in [None, Some((n / 3, 0.5)), Some((n - 3, 2.0))] {
+            let mut w = vec![1.0; n - 1];
+            if let Some((p, h)) = dev {
+                w[p] = h;
+            }
+            let a = nimc::alpha::axis_from_word("vlong", 0.0, &w);
+            for spec in [nimc::subj::BcSpec::Periodic, nimc::subj::BcSpec::TopNotAKnot, nimc::subj::BcSpec::TopNatural] {
+                jobs.push(SplineJob { axis: a.clone(), spec, den: 8, f32_too, xscale: 1.0, nearly_closed: false, lane_mix: false });
+            }
+        }
+    }
+    let j = 2.0f64.powi(-32);
+    for w in [vec![0.5, 0.5 + j, 0.5, 0.5 - j / 2.0, 0.5], vec![0.5 + j, 0.5, 0.5, 0.5, 0.5 - j, 0.5, 0.5 + j / 4.0], vec![0.5, 0.5, 0.5 + j]] {
+        let a = nimc::alpha::axis_from_word("nearly-even", 0.0, &w);
+        for spec in bc_configs(a.n() + 8, a.n()) {
+            jobs.push(SplineJob { axis: a.clone(), spec, den: 8, f32_too: false, xscale: 1.0, nearly_closed: false, lane_mix: false });
+        }
+    }
     // long graded axes (intervals growing / shrinking geometrically over 70 - 130 knots; knots are
     // the rounded partial sums): only the boundary-independent statements are judged
     for (r, n) in [(2.0f64, 70usize), (2.0, 100), (4.0, 70), (1.5, 130), (1.25, 100)] {
@@ -86,7 +108,7 @@ fn body(ctx: &Ctx) -> (Summary, Meta) {
         },
     );
     let meta = Meta {
-        rule: "every (axis word, boundary configuration) is one built spline (state); per lane the Hermite pair of every interval is recovered from the implementation's samples at t=1/4,3/4 and (i) S(x_i)=y_i, (ii) the 5 other eighth-samples lie on that cubic, (iii) S' and (iv) S'' agree from both sides at every interior knot. Deliberately independent of which boundary rows are right. Non-trivial = lane with non-constant data. Extra jobs: data sets whose lanes are scaled by 2^900, 2^-900 and 1 (whole-data-set boundary conditions); Periodic on every axis with data whose last value misses the first by 2^-20 relative: rejected by build() (counted) or, if accepted, held to the same four statements.".into(),
+        rule: "every (axis word, boundary configuration) is one built spline (state); per lane the Hermite pair of every interval is recovered from the implementation's samples at t=1/4,3/4 and (i) S(x_i)=y_i, (ii) the 5 other eighth-samples lie on that cubic, (iii) S' and (iv) S'' agree from both sides at every interior knot. Deliberately independent of which boundary rows are right. Non-trivial = lane with non-constant data. Extra jobs: axes of 100 - 1000 knots with 0 - 1 deviating intervals (Periodic, NotAKnot, Natural), nearly even axes (1/2 +- 2^-32); data sets whose lanes are scaled by 2^900, 2^-900 and 1 (whole-data-set boundary conditions); Periodic on every axis with data whose last value misses the first by 2^-22 relative: rejected by build() (counted) or, if accepted, held to the same four statements.".into(),
         bounds: format!("{} axes (same alphabet as C03), 33 boundary configurations, 8 samples per interval, f64 and f32", axes.len()),
         assumptions: vec![
             "tolerances K*eps*scale (value), 64x /h (S'), 256x /h^2 (S''), scale = max(|y|,|a|,|b|) of the recovered pieces".into(),
